@@ -255,6 +255,23 @@ CHECKS = {
         technique="TLA+ spec (Cli) model-checked + TLC-enumerated command lines executed in subprocesses + trace validation (TraceCli, TraceTree)",
         design_ref="3.10, 4 C19",
     ),
+    "C20": dict(
+        level="model_checking",
+        text="Stream.tla carries resident-memory accounting (input block, packed bytes held inside decoders, decoder output of the call, "
+             "carry-over, chunk handed out); TLC checks MemBound / InputBound / OutBound for every member size, ratio, solid position, chunk "
+             "limit, block size and overshoot constant within the bounds, with two negative controls (decoders ignoring the request: the "
+             "tree before the Deflate/Deflate64/ZStandard/Brotli repairs; a block read on every call: the tree before the glue repair). "
+             "On the code, fresh processes write and then read archives with synthetic members of 0.5-1 GiB (thorough: up to 4 GiB): zeros, "
+             "short period, text, incompressible x every codec family, also behind BCJ/Delta/7zAES x writef / write(path) / writestr series "
+             "x extractall(path) / extractall(factory) / testzip x big member first/last/between up to 900 small ones; every chain again "
+             "with the chunk limit scaled to 1 MiB; small archives declaring 3.5 GiB / 2^40 bytes. TLC (TraceMem) validates every "
+             "decompress step, the writer's reads and retention, the outcome and peak RSS minus baseline <= 700 MiB.",
+        note="Trusted: TLC; ru_maxrss of a fresh process (baseline after importing py7zr); 64 MiB constant overshoot allowed to soft output "
+             "limits. Deflate64 on incompressible data: the delegated library inflate64 leaks (known finding, isolated by running it alone). "
+             "PPMd only on compressible textures (pyppmd known finding of C01).",
+        technique="TLA+ spec (Stream with memory accounting) model-checked with negative controls + large-member runs in fresh processes + trace validation of steps and peak RSS (TraceMem)",
+        design_ref="3.4, 4 C20",
+    ),
 }
 
 NOT_YET = {}  # id -> reason; filled below for every property without a check
